@@ -36,8 +36,9 @@ LEVEL_NOTE = ('trusted base: vf/exactq.py predicate and exact comparison; values
 TECHNIQUE = 'runtime invariant monitor: store hooks + sys.monitoring return taps, predicate oracle, equal-value twin oracle'
 
 N_SHARDS = 16
-CASES = {'quick': 6000, 'thorough': 60000}
+CASES = {'quick': 6000, 'thorough': 40000}
 CALL_CAP = {'quick': 1.0, 'thorough': 3.0}
+SHARD_CPU_BUDGET = {'quick': 150, 'thorough': 1500}      # CPU seconds per shard; normal use is ~35 / ~250
 SECTIONS = ['ops', 'conv', 'funcs', 'iv', 'sum', 'pickle', 'matrix', 'carry', 'far', 'mulint', 'twin', 'funcs', 'ops',
             'funcs', 'carry', 'iv']
 # Primitives whose contract is NOT "returns a normalised raw value" would be listed here with the reason (their returns
@@ -1028,6 +1029,8 @@ def make_env(rec, tier, tap=True):
     c1, c2 = mpmath.mp.clone(), mpmath.mp.clone()
     env.ctxs = [mpmath.mp, c1, c2]
     env.cap = CALL_CAP.get(tier, 1.0)
+    env.t0 = time.process_time()
+    env.budget = SHARD_CPU_BUDGET.get(tier, 200)
     env.fnames = [n for n in K.all_names() if K.ENTRIES[n][0] != 'inspect']
     env.fcount = 0
     env.ivfuncs = None
@@ -1049,8 +1052,12 @@ def run_cases(env, r, n, shard_index, only=None):
         case = {'section': sec, 'index': i}
         env.mon.begin(case)
         out, cls = [], sec + '/raised'
+        if time.process_time() - env.t0 > env.budget:
+            rec.undecided('shard CPU budget exhausted before all cases were run', {'cases_run': i, 'planned': n})
+            break
         try:
-            got = SEC[sec](env, r, j)
+            with U.time_limit(env.cap * 4):       # no single case may hang the shard (inner caps are shorter)
+                got = SEC[sec](env, r, j)
             if got is None:
                 continue
             case, cls, out = got
